@@ -61,3 +61,28 @@ Theorem C07_leaving_exits_substates_first_mp11 : forall cf parents, c_be cf = Mp
     (Some tt, snd (mexit_spec mc ev rn), bump g (fst (mexit_spec mc ev rn))).
 Proof. exact mp11_exit_cascade. Qed.
 Print Assumptions C07_leaving_exits_substates_first_mp11.
+
+(* ---- on the specification function (Spec.v), which the engines are proved to be on the core fragment
+        (Properties_C01: C01_back_run_is_the_specified_selection, C01_mp11_run_is_the_specified_selection) ---- *)
+From Msm Require Import Spec Lemmas_Core Lemmas_SpecProps.
+
+(* a transition taken inside an active submachine keeps the enclosing machine's rows for that state from being tried *)
+Theorem C07_spec_consumed_inside_blocks_outside : forall pol mc subs ev val r c f k,
+  nth (nth r (c_act c) 0) subs None = Some f -> nth (nth r (c_act c) 0) (c_kids c) None = Some k ->
+  o_taken (f ev val k) = true ->
+  sp_region pol mc subs ev val r c =
+    Out true (o_rejected (f ev val k)) (map (push_path (nth r (c_act c) 0)) (o_items (f ev val k)))
+        (c_set_kid c (nth r (c_act c) 0) (o_conf (f ev val k))).
+Proof. exact sp_region_inner_first. Qed.
+Print Assumptions C07_spec_consumed_inside_blocks_outside.
+
+(* nothing taken inside: the enclosing rows for the submachine state are tried next *)
+Theorem C07_spec_not_consumed_bubbles : forall pol mc subs ev val r c f k,
+  nth (nth r (c_act c) 0) subs None = Some f -> nth (nth r (c_act c) 0) (c_kids c) None = Some k ->
+  o_taken (f ev val k) = false ->
+  let s := nth r (c_act c) 0 in
+  let o2 := sp_rows pol mc r ev val (sp_candidates mc s (e_ty ev)) (c_set_kid c s (o_conf (f ev val k))) in
+  sp_region pol mc subs ev val r c =
+    Out (o_taken o2) (o_rejected (f ev val k) || o_rejected o2) (o_items o2 ++ map (push_path s) (o_items (f ev val k))) (o_conf o2).
+Proof. exact sp_region_bubbles. Qed.
+Print Assumptions C07_spec_not_consumed_bubbles.
